@@ -37,7 +37,10 @@ def alphabet(tier: str, variant: str = "full") -> Tuple[List[List[tuple]], List[
           [PTR(TB, Z, 4500)], [PTR(TB, Z, 0)],
           # a changed record of an instance travelling *before* that instance's goodbye in the same datagram
           [("TXT", X, FL, 4500, b"\x01c"), PTR(TA, X, 0)], [("SRV", X, FL, 120, 0, 0, 81, "h.local."), PTR(TA, X, 0)],
-          [("TXT", X, FL, 4500, b"\x01d"), PTR(TA, X, 4500)]]
+          [("TXT", X, FL, 4500, b"\x01d"), PTR(TA, X, 4500)],
+          # the same pointer withdrawn and asserted inside one datagram, in both orders (whatever the cache ends up
+          # holding, the callbacks must say the same)
+          [PTR(TA, X, 0), PTR(TA, X, 4500)], [PTR(TA, X, 4500), PTR(TA, X, 0)]]
     if tier != "quick":
         d += [[PTR(TA, Y, 1125)], [PTR(TA, Y, 4500, FL)], [PTR(TA, X, 2)], [PTR(TA, X, 0), PTR(TB, Z, 4500)],
               [PTR(TA, Y, 0), PTR(TA, X, 0)], [("SRV", X, FL, 0, 0, 0, 80, "h.local.")], [("A", "h.local.", FL, 0, IP)],
@@ -52,7 +55,8 @@ def alphabet(tier: str, variant: str = "full") -> Tuple[List[List[tuple]], List[
         keep = {repr(x) for x in ([PTR(TA, X, 4500)], [PTR(TA, X, 1)], [PTR(TA, X, 0)], [PTR(TA, Y, 4500)], [PTR(TA, Y, 0)],
                                   [PTR(TA, XU, 4500)], [PTR(TA, X, 4500, FL)], [PTR(TA, X, 0), PTR(TA, Y, 4500)],
                                   [PTR(TA, X, 1), PTR(TA, X, 4500)], d[15], [PTR(TB, Z, 4500)],
-                                  [("TXT", X, FL, 4500, b"\x01c"), PTR(TA, X, 0)])}
+                                  [("TXT", X, FL, 4500, b"\x01c"), PTR(TA, X, 0)], [PTR(TA, X, 0), PTR(TA, X, 4500)],
+                                  [PTR(TA, X, 4500), PTR(TA, X, 0)])}
         d = [x for x in d if repr(x) in keep]
         steps = [1, 1000, 1001, 10000, 1125001, 4500000]
     ops = [("start", "a"), ("cancel", "a"), ("start", "ab")]
